@@ -122,7 +122,9 @@ ESshutCancel ==
 ERunEnd ==
   /\ Is("run-end") /\ Once("ran", Ev.n)
   /\ Over(S, Ev.n) /\ S.te[Ev.n] = S.now /\ S.st[Ev.n] = "ok" /\ S.res[Ev.n] = <<Ev.v, 0>>
-  /\ Kids(cfg, Ev.n) = {} \/ JustAfter("sshut-ret", Ev.n)
+  \* one task step: co_shutdown() returns, then co_run() returns (an empty
+  \* scheduler returns straight after it began)
+  /\ IF Kids(cfg, Ev.n) = {} THEN (Ev.n = Root \/ JustAfter("run-begin", Ev.n)) ELSE JustAfter("sshut-ret", Ev.n)
   /\ Same
 
 ERunExc ==
@@ -137,6 +139,7 @@ ERunExc ==
 EDiag ==
   /\ Is("diag") /\ Once("diag", Ev.n)
   /\ Over(S, Ev.n) /\ Marked("ran", Ev.n) /\ <<Ev.v, Ev.i>> = DiagOf(S, Ev.n) /\ Same
+  /\ JustAfter("run-end", Ev.n) \/ JustAfter("run-exc", Ev.n)
 
 EShut ==
   /\ Is("shut") /\ Once("shut", Ev.n)
